@@ -116,7 +116,24 @@ def readLine (inp : Bytes) : Option (Bytes × Bytes) :=
     | x :: xs => if x = 10 then some ((x :: acc).reverse, xs) else go (x :: acc) xs
   go [] inp
 
-def word (s : String) : Bytes := Bytes.ofString s
+/-- The command words of the text protocol, as bytes (checked against the regenerated list of
+    `case` labels of `TextParser.Parse` by `words_match_source`). -/
+def wSet : Bytes := [115, 101, 116]
+def wAdd : Bytes := [97, 100, 100]
+def wReplace : Bytes := [114, 101, 112, 108, 97, 99, 101]
+def wAppend : Bytes := [97, 112, 112, 101, 110, 100]
+def wPrepend : Bytes := [112, 114, 101, 112, 101, 110, 100]
+def wGet : Bytes := [103, 101, 116]
+def wDelete : Bytes := [100, 101, 108, 101, 116, 101]
+def wTouch : Bytes := [116, 111, 117, 99, 104]
+def wNoop : Bytes := [110, 111, 111, 112]
+def wQuit : Bytes := [113, 117, 105, 116]
+def wVersion : Bytes := [118, 101, 114, 115, 105, 111, 110]
+def wStats : Bytes := [115, 116, 97, 116, 115]
+
+theorem words_match_source :
+    Gen.textCommandWordBytes = [wSet, wAdd, wReplace, wAppend, wPrepend, wGet, wDelete, wTouch, wNoop, wQuit, wVersion, wStats] := by
+  decide
 
 /-- textprot `setRequest` -/
 def textSet (k : SetKind) (parts : List Bytes) (rest : Bytes) : PRes :=
@@ -149,32 +166,32 @@ def textParse (inp : Bytes) : PRes :=
   | some (line, rest) =>
     let parts := splitSpace (trimSpace line)
     let cmd := parts.headD []
-    if cmd = word "set" then textSet .set parts rest
-    else if cmd = word "add" then textSet .add parts rest
-    else if cmd = word "replace" then textSet .replace parts rest
-    else if cmd = word "append" then textSet .append parts rest
-    else if cmd = word "prepend" then textSet .prepend parts rest
-    else if cmd = word "get" then
+    if cmd = wSet then textSet .set parts rest
+    else if cmd = wAdd then textSet .add parts rest
+    else if cmd = wReplace then textSet .replace parts rest
+    else if cmd = wAppend then textSet .append parts rest
+    else if cmd = wPrepend then textSet .prepend parts rest
+    else if cmd = wGet then
       if parts.length < 2 then failWith .get (.app .badRequest) rest 0
       else { cmd := some (.get { keys := parts.tail.map fun k => { key := k } }), rt := .get, rest := rest }
-    else if cmd = word "delete" then
+    else if cmd = wDelete then
       match parts with
       | [_, key] => { cmd := some (.delete { key := key }), rt := .delete, rest := rest }
       | _ => failWith .delete (.app .badRequest) rest 0
-    else if cmd = word "touch" then
+    else if cmd = wTouch then
       match parts with
       | [_, key, ex] =>
         match parseUint32 (trimSpace ex) with
         | some e => { cmd := some (.touch { key := key, exptime := e }), rt := .touch, rest := rest }
         | none => failWith .set (.app .badRequest) rest 0
       | _ => failWith .touch (.app .badRequest) rest 0
-    else if cmd = word "noop" then
+    else if cmd = wNoop then
       if parts.length = 1 then { cmd := some (.noop 0), rt := .noop, rest := rest } else failWith .noop (.app .badRequest) rest 0
-    else if cmd = word "quit" then
+    else if cmd = wQuit then
       if parts.length = 1 then { cmd := some (.quit 0 false), rt := .quit, rest := rest } else failWith .quit (.app .badRequest) rest 0
-    else if cmd = word "version" then
+    else if cmd = wVersion then
       if parts.length = 1 then { cmd := some (.version 0), rt := .version, rest := rest } else failWith .quit (.app .badRequest) rest 0
-    else if cmd = word "stats" then
+    else if cmd = wStats then
       if parts.length = 1 then { cmd := some (.stat 0), rt := .stat, rest := rest } else failWith .quit (.app .badRequest) rest 0
     else { cmd := none, rt := .unknown, err := none, rest := rest }
 
